@@ -129,7 +129,8 @@ class Armorable(metaclass=abc.ABCMeta):
             m['hashes'] = m['hashes'].split(',')
 
         if m['headers'] is not None:
-            m['headers'] = collections.OrderedDict(re.findall('^(?P<key>.+): (?P<value>.+)$\n?', m['headers'], flags=re.MULTILINE))
+            # the key ends at the first ': '; a CR before the line end belongs to the line ending, not to the value
+            m['headers'] = collections.OrderedDict(re.findall('^(?P<key>.+?): (?P<value>.+?)\r?$\n?', m['headers'], flags=re.MULTILINE))
 
         if m['body'] is not None:
             try:
